@@ -14,7 +14,8 @@ TEXT = {
                   "it; history theorem by induction over any operation sequence; usize/i64 headroom: one operation raises the blade count by at most the operand's count "
                   "+ 4, so histories of up to 2^20 operations inside the 2^40 domain stay below 2^62 (the model's Nat and the code's usize cannot differ, no overflow "
                   "panic); sum and product magnitudes finite and non-negative in every branch (never NaN); the angle of a+b is canonical in every branch incl. the atan2 "
-                  "re-encoding (blade sums to 2^39), likewise a-b, geo, reject, Angle/f64, pow, scale_rotate, dot, wedge, project, reflect, cos, sin. The headline "
+                  "re-encoding (blade sums to 2^39), likewise a-b, geo, reject, Angle/f64, pow, scale_rotate, dot, wedge, project, reflect, cos, sin, inv, normalize, a/b (all "
+                  "spellings), scale, meet, scalar(f) for any bits of f (more_ops_canonical). The headline "
                   "theorems are also stated on the proved rounding arithmetic R64 with no arithmetic hypothesis left (R). Proved (G): the panics of "
                   "inv/div/normalize/invert_circle occur exactly when the tested magnitude compares equal to 0. Partial: constructor domain is bounded by 1e200 (beyond "
                   "it the extreme-scale generator shapes and the tie are the evidence). "),
@@ -27,8 +28,9 @@ TEXT = {
                   "forward rotation in the same direction). The Cartesian constructor (repaired, fix 9118133): for every finite non-zero vector with max(|x|,|y|) <= "
                   "1e120 the magnitude is finite and within 11*2^-53 relative (+2^-1075) of sqrt(x^2+y^2), in both branches (B). Proved (E, exact reals): Angle::new(p,d) "
                   "denotes p*pi/d modulo whole turns within 1e-10 for every real p,d and every path (fast, negative, general), a negative argument gives the forward "
-                  "rotation; new_from_cartesian has total arg(x+iy) and the Euclidean norm. Partial: 'at most one turn unless 2p/d is an integer' for negative p/d in "
-                  "rounded arithmetic (E-tier + oracle with exact rational floor(2p/d)). "),
+                  "rotation; new_from_cartesian has total arg(x+iy) and the Euclidean norm. Proved (B): for -2^41 <= x < 0 the float total of Angle::new(x, PI) lies in "
+                  "[0, 2pi_f + 1e-10 + (24|x|+46)*2^-53] - the forward angle within one turn (negative_forward_float). Partial: the one-turn clause for divisors other "
+                  "than PI in rounded arithmetic (E-tier + oracle with exact rational floor(2p/d)). "),
          "note": S_NOTE},
  "C03": {"level": ("Proved for all canonical angles of any blade count: 12 spellings identical (G), bit-for-bit commutativity, zero identity, blade = sum with at most one "
                   "carry, invariant preserved, |T(a+b) - (T a + T b)| < 1e-10 + 1e-15 in rounded arithmetic (S); associativity of totals within twice the tolerance (at "
@@ -54,8 +56,11 @@ TEXT = {
                   "atan2 of the rounded component sums plus a whole number of turns within 1e-10 + (40*cb+140)*2^-53 (cb = combined blade count). The closure (B): the "
                   "Cartesian components of a+b (true pi) are the component-wise sums of the operands' Cartesian components within (|a|+|b|)*(2e-7 + 1.1*(1e-10 + "
                   "(40*cb+170)*2^-53)) + 1e-28, assembled from the rounded component sums, the magnitude against the true norm, the libm atan2 against the exact argument "
-                  "(incl. the negative real axis) and the re-encoding. Residue: the sqrt(eps)*scale term of the bound is uniform rather than only under cancellation; the "
-                  "same-angle / opposite branches are exact by construction (E-tier + oracle). "),
+                  "(incl. the negative real axis) and the re-encoding. The special branches in rounded arithmetic (B): identical angles within (|a|+|b|)*(2^-53+1e-15), a "
+                  "half turn apart (cancellation, first larger, second larger) within that + 2e-10; hence sum_cartesian_every_branch_float / diff_cartesian_every_branch_float "
+                  "with no branch hypothesis, and running_sum_float: by induction over any list every partial sum is canonical and the running sum's Cartesian components "
+                  "are within the accumulated per-step bounds. Also stated on the rounding arithmetic R64 (R). Residue: the sqrt(eps)*scale term of the bound is uniform "
+                  "rather than only under cancellation. "),
          "note": S_NOTE},
  "C07": {"level": ("Proved: grade = blade mod 4 and predicates, base_angle, magnitudes untouched, is_opposite <-> blade counts differ by exactly two (unbounded integers) "
                   "and the remainder test (G); each step operator's exact blade delta (2,2,2,2,1,1,3,3) with remainder value and canonicity preserved; history theorem by "
@@ -65,8 +70,9 @@ TEXT = {
  "C08": {"level": ("Proved for EVERY arithmetic and every shift n (unbounded): the grade angle of a difference is the same value under 4n/4m blade shifts, hence dot, "
                   "orthogonality, distance, Angle::project, cos/sin, cone membership are identical structures (bit-identical on the machine); wedge, meet, project shift "
                   "their angle by exactly the operands' shifts (G); project_to_dimension(k) = (k+4n) (S); in rounded arithmetic 4n quarter turns on a summand move the "
-                  "Cartesian components of a general-branch sum by at most twice the C06 accuracy bound (B). Partial: Cartesian value of sums under shifts (float "
-                  "tolerance grows with ulp(blade*pi/2)) explored by oracle. "),
+                  "Cartesian components of a sum by at most twice the C06 accuracy bound - with both sums in the general branch (sum_shift_cartesian_float) and with NO "
+                  "branch hypothesis at twice the every-branch bound (sum_shift_every_branch_float: the shift may move a pair between branches) (B; on R64: R). The "
+                  "tolerance grows with ulp(blade*pi/2), as the bound states. "),
          "note": S_NOTE},
  "C09": {"level": ("Proved: dot = |value| at the base angle or base+pi exactly when the computed value tests negative, orthogonality test definition (G); the two angles "
                   "are blade 0 / blade 2 with remainder 0; magnitude >= 0 and <= rnd(|a||b|) (Cauchy-Schwarz in rounded arithmetic) (S); the returned signed value is "
@@ -83,7 +89,9 @@ TEXT = {
                   "reject = a - proj, angle/dimension forms (G); 0 <= |proj| <= |a|, projection angle canonical with b's blade or +2 and b's remainder (S); in rounded "
                   "arithmetic: Angle::project is cos(T onto - T self) within 1e-10+8e-15, the projection length is |a||cos(Tb-Ta)| within |a|(1e-10+1e-14), and "
                   "project_to_dimension(k) is |g|cos(k*pi/2 - T g) within |g|(1e-10+1e-14) for every k < 2^53 with no growth in k (B); the projection's Cartesian point "
-                  "is (a.b^)b^, projection + rejection = a as points, rejection orthogonal to b, Pythagoras (E). "),
+                  "is (a.b^)b^, projection + rejection = a as points, rejection orthogonal to b, Pythagoras (E); in rounded arithmetic the Cartesian components of "
+                  "projection and rejection add up to those of a in EVERY branch of the underlying subtraction, incl. a parallel to b "
+                  "(project_add_reject_every_branch_float) (B). "),
          "note": S_NOTE},
  "C12": {"level": ("Proved: rotation returns the magnitude field itself and the angle sum; reflection never reads the axis length; scale-rotate branch law (G); full turn "
                   "adds exactly 4 blades keeping grade and remainder; rotation carries; reflection result canonical with at least twice the axis's blades (S); in ROUNDED "
@@ -100,8 +108,10 @@ TEXT = {
          "note": S_NOTE},
  "C14": {"level": ("Proved: same-angle branch keeps the receiver's angle field; opposite branch: cancellation gives (0.0, new_with_blade(ba+bb)) literally blade ba+bb rem "
                   "0.0, otherwise the larger summand's angle field (G/S); the equality tests are blade-exact so the branches fire only for equal blades / blades exactly "
-                  "two apart (S); general regime in exact arithmetic: blade sum <= result blade <= blade sum + 4, = +4 only with remainder 0 (E). That bound is FALSE of "
-                  "the float code for blade sums above ~1e5 (known finding, witness replayed). "),
+                  "two apart (S); general regime in exact arithmetic: blade sum <= result blade <= blade sum + 4, = +4 only with remainder 0 (E); general regime in ROUNDED "
+                  "arithmetic for blade sums up to 2^39 (general_blade_float; on the rounding arithmetic R64: general_blade_rounded): blade sum <= result blade <= "
+                  "blade sum + 4, = +4 only with remainder <= 1e-10 + (48*cb+200)*2^-53 - the snap width for small cb, growing with cb (B/R). 'Only with remainder 0' is "
+                  "FALSE of the float code for blade sums above ~1e5 (known finding, witness replayed; the proved bound quantifies it). "),
          "note": S_NOTE},
  "C15": {"level": ("Proved: tan = sin.div(cos), adj/opp = cos/sin scaled (definitional), cos/sin = |libm value| at base or base+pi iff the value tests negative (G); "
                   "lattice placement (cos on blade 0/2, sin on blade 1/3, remainder 0), magnitudes in [0,1] (S); magnitudes within the libm error of |cos T|,|sin T| for "
@@ -110,12 +120,16 @@ TEXT = {
          "note": S_NOTE},
  "C16": {"level": ("Proved: == implies identical blades; Geonum == adds magnitude; partial_cmp = Some(cmp) (G); cmp is the lexicographic order on (blade, remainder "
                   "value): never panics on finite fields, reflexive, antisymmetric, transitive, total; cmp=Equal implies ==; == implies remainders within 1e-15 (S); over "
-                  "exact reals sort never panics and returns a sorted permutation (List.mergeSort with the proved lawful order) (E). '== implies cmp=Equal' is FALSE of "
+                  "exact reals sort never panics and returns a sorted permutation (List.mergeSort with the proved lawful order) (E); the same in ROUNDED arithmetic for every "
+                  "list of numbers with finite fields (sort_float; every list over R64: sort_rounded) (S/R). '== implies cmp=Equal' is FALSE of "
                   "the code (known finding, witness replayed); proved only for equal remainder values (_partial). "),
          "note": S_NOTE},
  "C17": {"level": ("Proved for every arithmetic (G): truncate/select_cone are exactly List.filter by the coded predicates (sublists, order kept, strictness, zero "
                   "members/axis never selected); scale_all/rotate_all are List.map (length kept); total_magnitude is the left fold from -0.0; dominant is None exactly on "
-                  "the empty collection and otherwise a member; conversions/index/iteration are the member sequence itself. "),
+                  "the empty collection and otherwise a member; conversions/index/iteration are the member sequence itself. Proved in rounded arithmetic (S; on R64: R): a "
+                  "member with finite magnitude is kept by truncate exactly when its value is strictly above the threshold; on a non-empty collection with finite "
+                  "magnitudes dominant never panics and returns a member of maximal magnitude; total_magnitude of up to 2^20 non-negative magnitudes is within "
+                  "2n*2^-53 relative of the exact sum. "),
          "note": S_NOTE},
  "C18": {"level": ("Proved for every arithmetic (G): each helper of the six optional traits equals its documented closed form over core operations (mostly definitional by "
                   "design - the weight is on the bit-exact tie, where every helper is an op). "),
